@@ -31,9 +31,9 @@ type vworld struct {
 	curOp   string
 	curCls  string
 	curLive string
-	snap    *vsnap // private state after the last operation (computed once)
-	large   bool   // reduced alphabet on one large container (large.go)
-	maxZ    int    // large: bound on the stored zeros
+	snap    *vsnap  // private state after the last operation (computed once)
+	large   bool    // reduced alphabet on one large container (large.go)
+	maxZ    int     // large: bound on the stored zeros
 	views   []vview // slice + sibling views left by the last slice-writer operation (views.go)
 	joint   bool    // reduced alphabet with one live joint iterator (joint.go)
 	jforms  []int
